@@ -28,6 +28,16 @@ Definition glue_C04 (k : string) (a o : list value) : option verdict :=
         Some (functional [VZ (time_sec b); VZ (time_nsec b)] o
                 (C04_roundtrip_ok t r (mk_time bsec bnsec)))
     | _, _ => None end
+  else if is k "ntp.edge" then
+    (* the window edges judged with the property's literal (nanosecond) window; the fifth
+       argument is the difference of the whole seconds (an echo of the input, for the record) *)
+    match a, o with
+    | [VZ sec; VZ nsec; VZ rsec; VZ rnsec; VZ _], [VZ bsec; VZ bnsec] =>
+        let t := mk_time sec nsec in let r := mk_time rsec rnsec in
+        let b := time_of_time64 (time64_of_time t) r in
+        Some (functional [VZ (time_sec b); VZ (time_nsec b)] o
+                (C04_roundtrip_ns_ok t r (mk_time bsec bnsec)))
+    | _, _ => None end
   else if is k "ntp.order" then
     match a, o with
     | [VZ s1; VZ n1; VZ s2; VZ n2; VZ rsec; VZ rnsec], [VZ b1s; VZ b1n; VZ b2s; VZ b2n] =>
